@@ -1187,7 +1187,18 @@ def malformed_stream(ctx: Ctx, rng, n):
         classes = gen_classes(rng, kind, n_max=4)
         c = rng.choice(classes)
         r = rng.random()
-        if r < 0.3 and c["generic"]:
+        if r < 0.25:
+            # a TypeVar that is not a parameter of the class (Python does not object at run time): outside the
+            # property and outside the model (`AnnScoped`), observed only
+            ps = derive_table(kind, classes)
+            mine = ps[classes.index(c)]["params"] if ps else []
+            stranger = rng.choice([v for v in range(4) if v not in mine] or [3])
+            c["ann"] = c["ann"] + [["z", rng.choice([TV(stranger), G("List", [TV(stranger)])])]]
+            if kind == "namedtuple":
+                classes[0]["ann"] = classes[0]["ann"] + [["z", A("int")]] if c is not classes[0] else classes[0]["ann"]
+            yield kind, classes, "out-of-scope"
+            continue
+        if r < 0.4 and c["generic"]:
             c["generic"] = c["generic"] + [c["generic"][0]]           # duplicate parameter
         elif r < 0.6 and c["bases"]:
             c["bases"] = c["bases"] + [dict(c["bases"][0])]           # duplicate base
@@ -1195,7 +1206,32 @@ def malformed_stream(ctx: Ctx, rng, n):
             c["bases"][0]["args"] = c["bases"][0]["args"] + [A("int")]  # arity
         else:
             c["generic"] = []                                           # Generic[()]
-        yield kind, classes
+        yield kind, classes, "broken-class-statement"
+
+
+def observe_out_of_scope(ctx: Ctx, real: Real, kind, classes, table):
+    """the resolver on a class that uses a TypeVar it is not generic in: recorded, never compared"""
+    if table is None:
+        ctx.dist["out-of-scope:rejected-by-python-rules"] += 1
+        return
+    try:
+        rcls = real.build(kind, classes)
+    except Exception:
+        ctx.dist["out-of-scope:unbuildable"] += 1
+        return
+    c = len(classes) - 1
+    tgts = [{"cls": c, "args": None}]
+    if table[c]["params"]:
+        tgts.append({"cls": c, "args": [admissible(p)[0] for p in table[c]["params"]]})
+    for tgt in tgts:
+        try:
+            got = real.resolved(real.target(rcls, tgt), "in")
+        except Exception:
+            got = "unbuildable-target"
+        if isinstance(got, dict):
+            got = "typevar-left-in-place" if any(getattr(t, "__parameters__", ()) or isinstance(t, TypeVar)
+                                                 for t in got.values()) else "resolved-closed"
+        ctx.dist[f"out-of-scope:{got}"] += 1
 
 
 def gen_cases(ctx: Ctx, n_random):
@@ -1242,7 +1278,7 @@ def run(ctx: Ctx):
             drv = None
     suite_implicit(ctx, real, drv)
     items = []
-    for kind, classes, targets, origin in gen_cases(ctx, ctx.budget(1000, 14000)):
+    for kind, classes, targets, origin in gen_cases(ctx, ctx.budget(1000, 8000)):
         got = run_case(ctx, real, kind, classes, targets, origin)
         items += got
         for it in got[-1:]:
@@ -1250,10 +1286,12 @@ def run(ctx: Ctx):
         if len(items) >= 4000:
             process(ctx, drv, items)
             items = []
-    for kind, classes in malformed_stream(ctx, ctx.rng, ctx.budget(150, 1500)):
+    for kind, classes, what in malformed_stream(ctx, ctx.rng, ctx.budget(150, 1500)):
         table = derive_table(kind, classes)
         ctx.note_case({"kind": kind, "classes": classes, "origin": "malformed"}, nontrivial=False, kind="malformed")
-        if table is not None:
+        if what == "out-of-scope":
+            observe_out_of_scope(ctx, real, kind, classes, table)
+        elif table is not None:
             items += run_case(ctx, real, kind, classes, [{"cls": len(classes) - 1, "args": None}], "malformed")
         else:
             try:
